@@ -68,14 +68,46 @@ pub struct ConnCase {
     pub use_fd0: bool,
     /// C12: stub-free run over a real socketpair with SCM_RIGHTS (vmm-sys-util's recvmsg path)
     pub real_socket: bool,
+    /// C04: (offset, new limit), ascending offsets: the owner calls set_payload_max_size(new limit)
+    /// when exactly `offset` bytes have been delivered (every schedule is cut there)
+    pub relimit: Vec<(usize, usize)>,
 }
 
 impl ConnCase {
     pub fn new(limit: Option<usize>, stream: Vec<u8>, scheds: Vec<Vec<SOp>>) -> Self {
-        ConnCase { limit, stream, scheds, eof: true, oneshot_max: None, fd_plan: vec![], eof_fds: 0, drop_mode: 0, use_fd0: false, real_socket: false }
+        ConnCase {
+            limit,
+            stream,
+            scheds,
+            eof: true,
+            oneshot_max: None,
+            fd_plan: vec![],
+            eof_fds: 0,
+            drop_mode: 0,
+            use_fd0: false,
+            real_socket: false,
+            relimit: vec![],
+        }
     }
     pub fn eff_limit(&self) -> usize {
         self.limit.unwrap_or(51200)
+    }
+    /// the limit in force when a header block ending at offset `e` completes: the byte e-1 is
+    /// delivered by a read that starts after every change at an offset < e
+    pub fn limit_at(&self, e: usize) -> usize {
+        let mut l = self.eff_limit();
+        for &(p, nl) in &self.relimit {
+            if p < e {
+                l = nl;
+            }
+        }
+        l
+    }
+    pub fn max_limit(&self) -> usize {
+        self.relimit.iter().map(|x| x.1).fold(self.eff_limit(), |a, b| a.max(b))
+    }
+    pub fn model(&self) -> ModelOut {
+        crate::model::model_stream_lim(&self.stream, &|e| self.limit_at(e), WINDOW)
     }
     pub fn to_json(&self) -> J {
         json::obj(vec![
@@ -97,6 +129,7 @@ impl ConnCase {
             ("drop_mode", json::u(self.drop_mode as usize)),
             ("use_fd0", J::Bool(self.use_fd0)),
             ("real_socket", J::Bool(self.real_socket)),
+            ("relimit", J::Arr(self.relimit.iter().map(|(p, l)| J::Arr(vec![json::u(*p), json::u(*l)])).collect())),
         ])
     }
     pub fn from_json(j: &J) -> Result<Self, String> {
@@ -119,6 +152,18 @@ impl ConnCase {
             drop_mode: j.get("drop_mode").and_then(|x| x.usize()).unwrap_or(0) as u8,
             use_fd0: j.get("use_fd0").and_then(|x| x.bool()).unwrap_or(false),
             real_socket: j.get("real_socket").and_then(|x| x.bool()).unwrap_or(false),
+            relimit: j
+                .get("relimit")
+                .and_then(|x| x.arr())
+                .map(|a| {
+                    a.iter()
+                        .filter_map(|e| {
+                            let e = e.arr()?;
+                            Some((e.first()?.usize()?, e.get(1)?.usize()?))
+                        })
+                        .collect()
+                })
+                .unwrap_or_default(),
         })
     }
 
@@ -137,6 +182,13 @@ impl ConnCase {
         for (a, b) in removal_ranges(self.stream.len(), 40) {
             let mut c = self.clone();
             c.stream.drain(a..b);
+            for r in c.relimit.iter_mut() {
+                if r.0 >= b {
+                    r.0 -= b - a;
+                } else if r.0 > a {
+                    r.0 = a;
+                }
+            }
             for s in c.scheds.iter_mut() {
                 for op in s.iter_mut() {
                     if let SOp::Cut(p) = op {
@@ -434,10 +486,12 @@ pub fn run_plain(case: &ConnCase, sched: &[SOp], m: &ModelOut, st: &mut Stats) -
 /// read; bit 1 = pop parsed requests only at the very end; mode 3 additionally answers every
 /// popped request... (with bit 1 set nothing is popped before the end, so mode 3 = drain + late pop).
 /// Mode 5 = pop each read, enqueue a response per request and push it out with short writes.
+/// Bit 3 = the output side is lost between reads (clear_write_buffer(), or a write the stream refuses).
 pub fn run_plain_mode(case: &ConnCase, sched: &[SOp], m: &ModelOut, st: &mut Stats, mode: u8) -> PlainInfo {
     let drain_each = mode & 1 == 1;
     let pop_late = mode & 2 == 2;
     let answer = mode & 4 == 4;
+    let output_lost = mode & 8 == 8;
     let mut conn = Conn::new(case.stream.clone(), case.limit);
     let len = case.stream.len();
     let mut cur = SchedCursor::new(sched);
@@ -482,6 +536,22 @@ pub fn run_plain_mode(case: &ConnCase, sched: &[SOp], m: &ModelOut, st: &mut Sta
         if drain_each && conn.pending_write() {
             let _ = conn.drain_output();
             st.probe("writes_interleaved_with_reads");
+        }
+        if output_lost {
+            // the output side is discarded between reads -- by the owner, or by a write the
+            // stream refuses; the input side must not notice
+            if cur.reads % 2 == 1 {
+                conn.c.clear_write_buffer();
+                st.probe("output_cleared_between_reads");
+            } else {
+                if !conn.pending_write() {
+                    let (resp, _) = crate::obs::simple_response(1, 200, Some(b"ok"));
+                    conn.c.enqueue_response(resp);
+                }
+                let _ = conn.try_write(crate::simstream::WrOp::Epipe);
+                st.fault("F-werr:EPIPE");
+                st.probe("write_failed_between_reads");
+            }
         }
         for (o, _) in popped {
             obs.reqs.push(o);
@@ -594,9 +664,25 @@ pub fn run_online(
         near_limit: false,
     };
     let viol = |class: &str, step: usize, detail: String| Violation::new(&format!("{}:{}", class_prefix, class), step, detail);
+    let mut ri = 0usize;
     loop {
         let pos0 = conn.pos();
+        while ri < case.relimit.len() && case.relimit[ri].0 <= pos0 {
+            conn.c.set_payload_max_size(case.relimit[ri].1);
+            st.probe("limit_changed_between_reads");
+            if pos0 > 0 && !m.request_ends.contains(&pos0) {
+                st.probe("limit_changed_inside_a_request");
+            }
+            ri += 1;
+        }
         let op = match cur.next(pos0, len) {
+            // every schedule is cut where the limit changes
+            Some(RdOp::Data(n, f)) if ri < case.relimit.len() && case.relimit[ri].0 > pos0 => {
+                Some(RdOp::Data(n.min(case.relimit[ri].0 - pos0), f))
+            }
+            other => other,
+        };
+        let op = match op {
             Some(op) => op,
             None => break,
         };
@@ -674,11 +760,11 @@ pub fn run_online(
                     }
                     _ => {
                         let bl = lib.body.as_ref().map(|b| b.len()).unwrap_or(0);
-                        if lib.content_length != me.content_length || bl != me.content_length as usize || bl > case.eff_limit() {
+                        if lib.content_length != me.content_length || bl != me.content_length as usize || bl > case.max_limit() {
                             return Err(viol(
                                 "body-length",
                                 step,
-                                format!("declared {} delivered body {} limit {}", me.content_length, bl, case.eff_limit()),
+                                format!("declared {} delivered body {} limit {}", me.content_length, bl, case.max_limit()),
                             ));
                         }
                     }
